@@ -91,6 +91,14 @@ func c02Digest(c *Ctx) {
 		good := len(snd) == 1 && sameValue(snd[0].Call.Args[2], call.Common().Args[1]) && domI(snd[0], call.(ssa.Instruction))
 		c.check(good, "sendFileMD5/echo", c.ipos(call), "the digest sent is the digest the echo is compared with", "sendFileMD5 compares the echo with a different value than it sent")
 	}
+	// and no exit of sendFileMD5 that may report success avoids that comparison (zero comparisons is a failure, not silence)
+	{
+		hit, path := reachFrom(sm.Blocks[0], 0, c.maySucceed, func(in ssa.Instruction) bool {
+			ci, ok := in.(ssa.CallInstruction)
+			return ok && calleeID(ci.Common()) == tT+"checkBinary" && isVar("digest")(ci.Common().Args[1])
+		})
+		c.check(hit == nil, "sendFileMD5/always-compares-echo", c.pos(sm.Pos()), "the sender reports the MD5 step done only after comparing the echo with its own digest", "the sender can finish the MD5 step without comparing the receiver's answer with its own digest (any answer is accepted)", c.pathStr(path)...)
+	}
 	// per-file loops: digest argument comes from the data stage of the same iteration; MD5 exchange cannot be skipped
 	for _, side := range []struct {
 		loop, md5, name string
